@@ -9,7 +9,7 @@ EXPECT = {}
 FAULT = {}
 
 def gen_conforming(tier, rng):
-    n = 6000 if tier == "quick" else 150000
+    n = 6000 if tier == "quick" else 500000
     out = []
     for d in docs(rng, n):
         r = req_parse(d.render())
@@ -38,7 +38,7 @@ def oracle_conforming(req, out):
     return None
 
 def gen_faulted(tier, rng):
-    n = 6000 if tier == "quick" else 150000
+    n = 6000 if tier == "quick" else 500000
     out = []
     for d in docs(rng, n):
         k = rng.choice([1, 1, 1, 2])
